@@ -13,7 +13,7 @@ func init() {
 		"C09": {"'hung' (liveness)", "messages built in-process by hostile Go code that violate protobuf well-formedness (set oneof members / map values non-nil)"},
 		"C10": {"'GracefulStop returns once those RPCs have finished' (liveness; by reading, nothing ends an idle tunnel while closing)", "sync.WaitGroup semantics (assumed)"},
 		"C11": {"'instead of hanging' (liveness)", "behaviour of real legacy binaries (only this package's emissions towards a peer that did not advertise negotiation are constrained)"},
-		"C12": {"'at every quiescent moment' across the two unsynchronised registry levels (argued from the add/remove pairing obligations)", "n consecutive picks hit n tunnels: the one-step cyclic successor is proved, the n-step consequence is arithmetic on Z/n and stated, not mechanised"},
+		"C12": {"'at every quiescent moment' across the two unsynchronised registry levels (argued from the add/remove pairing obligations)", "n consecutive picks hit n tunnels: the one-step successor (pick's postcondition, rrnext) and the arithmetic lemmas rr_base/rr_step/rr_range/rr_distinct are discharged; the induction on the number of picks and the pigeonhole step that combine them are two lines of meta-argument in the contract file, not mechanised; a concurrent change of the tunnel set between picks is outside the statement ('stable set')"},
 		"C13": {"relative order of frames emitted by different goroutines of one stream", "no request data after half-close relies on the API precondition 'no SendMsg after CloseSend'"},
 		"C14": {"that enabled goroutines are scheduled and that carrier calls return", "that user handlers return after their context is cancelled"},
 		"C15": {"races inside dependencies or on caller-owned memory other than header/trailer targets", "deadlocks involving the carrier or user callbacks invoked under a lock", "anything only a dynamic race detector would observe; the claim is the lock/atomic/publication discipline on package-owned fields"},
